@@ -964,12 +964,14 @@ pub fn vh_decode(a: &Args) {
             if !sel(a, "chips", chip) {
                 continue;
             }
-            for boost in [false, true] {
+            // RegPaDac as the reset leaves it (0x84) and as an earlier +20 dBm transmission leaves it (0x87): the
+            // programmed power must not depend on what was requested before
+            for (boost, padac) in [(false, 0x84u8), (true, 0x84), (false, 0x87), (true, 0x87)] {
                 for prep in [true, false] {
                     let mut cs: Vec<Value> = Vec::new();
                     let mut env0 = Env127::new();
-                    env0.regs[0x4D] = 0x84;
-                    env0.regs[0x5A] = 0x84;
+                    env0.regs[0x4D] = padac;
+                    env0.regs[0x5A] = padac;
                     env0.regs[0x09] = 0x4F;
                     env0.regs[0x0A] = 0x09;
                     env0.regs[0x0B] = 0x2B;
